@@ -426,6 +426,11 @@ func cmdCheck(args []string) {
 		file := writeReplayFile(replayDir, id, r, nil, "verification conditions could not be generated / frame violated: "+ge)
 		viol = append(viol, violation{r.O.Name, file, true})
 	}
+	if nObl+nKnown == 0 {
+		r := &OblResult{O: &Obligation{Name: id + "/obligation-count", Kind: "count", Text: "no obligation was generated"}, Status: "failed"}
+		file := writeReplayFile(replayDir, id, r, nil, "the check generated no obligation at all: a run that proves nothing is not a pass")
+		viol = append(viol, violation{r.O.Name, file, true})
+	}
 	// expected count
 	exp := loadExpected()
 	if n, ok := exp[id]; ok && nObl+nKnown < n {
